@@ -259,6 +259,27 @@ func init() {
 }
 
 func init() {
+	// C07 also needs the scoping side: options of sibling / not-yet-named commands are unknown
+	base := props["C07"]
+	props["C07"] = propRun{rule: base.rule + "; second stage: deep command trees with few positionals, command words of sibling and ancestor commands, options of out-of-scope commands", run: func(c *Ctx) {
+		base.run(c)
+		p := defaultProfile
+		p.MaxCmdDepth = 3
+		p.MaxSubs = 4
+		p.CmdWord = 0.35
+		p.SubOpt = 0.5
+		p.PosArgs = 0.05
+		p.Unknown = 0.12
+		p.BadDecl = 0.01
+		p.ArgvLen = 6
+		runParseCases(c, budget(c.Tier, 2000, 60000), p, func(cr *CaseResult) {
+			oracleNoPanic(c, cr)
+			oracleHandler(c, cr)
+		})
+	}}
+}
+
+func init() {
 	props["DBG2"] = propRun{rule: "debug", run: func(c *Ctx) {
 		p := defaultProfile
 		kinds := strings.Split(os.Getenv("VERIF_KINDS"), ",")
